@@ -186,12 +186,14 @@ class DataPath:
 
         for i in spec_key_split[1:]:
             i = DATUM_TYPE_MULTI_TYPE_LOOKUP.get(i, i)
-            try:
-                obj = getattr(obj, i)()
-            except AttributeError:
+            if i == "none" or i.upper() not in {
+                **DataPathDatumType.__members__,
+                **DataPathMultiType.__members__,
+            }:
                 raise MalformedDataPathSpec(
                     f"{i} if not a known DataPath DATUM_TYPE or MULTI_TYPE. {general_msg}"
                 )
+            obj = getattr(obj, i)()
 
         return obj
 
